@@ -545,7 +545,7 @@ func main() {
 	// 6. two processes: Trim concurrent with lookups; Trim killed half-way
 	rn.processBlocks(r, nStress, nKill)
 
-	res.Rule = fmt.Sprintf("corpus and hand-written histories first (re-store of a stale output, also empty and shared; Put into a missing subdirectory; trim.txt a directory; symbolic links); then one Put entry (with contents / empty) + hand-made files for every age of the pool (thresholds 1h, 1d, 5d, 5d+1h each -1h,-1s,-1ns,0,+1ns,+1s,+1h, plus fresh/old/future ages) x {no, old, corrupt} record; a Get/GetFile/GetBytes/OutputFile/Put at every such distance before the trim; the one-hour allowance; which files each lookup protects; %d generated scenarios (0-4 Put entries over 4 contents one of which is empty, 0-8 hand-made files/directories/links in subdirectories and the cache root, 13 classes of trim.txt, 0-5 events before the trim and 0-4 after it, missing subdirectories); %d clock/record pairs for the due-test alone; %d strings for ParseInt(TrimSpace(.)); %d rounds of Trim concurrent with lookups in another process and %d rounds of a Trim killed half-way. A case is non-trivial when it contains a Trim call on a non-empty population (or is a due-test / a parsable string / a process round); distinct = distinct scenario. Clock injected through reflect on the real package: %v; epoch = real time.", nScn, nSweep, nParse, nStress, nKill, injectable)
+	res.Rule = fmt.Sprintf("corpus and hand-written histories first (re-store of a stale output, also empty and shared; Put into a missing subdirectory; trim.txt a directory; symbolic links); then one Put entry (with contents / empty) + hand-made files for every age of the pool (thresholds 1h, 1d, 5d, 5d+1h each -1h,-1s,-1ns,0,+1ns,+1s,+1h, plus fresh/old/future ages) x {no, old, corrupt} record; a Get/GetFile/GetBytes/OutputFile/Put at every such distance before the trim; the one-hour allowance; which files each lookup protects; %d generated scenarios (0-4 Put entries over 4 contents one of which is empty, 0-8 hand-made files/directories/links in subdirectories and the cache root, 13 classes of trim.txt, 0-5 events before the trim and 0-4 after it, missing subdirectories); %d clock/record pairs for the due-test alone; %d strings for ParseInt(TrimSpace(.)); %d rounds of Trim concurrent with lookups in another process, %d rounds of a Trim killed half-way, and rounds of a Trim started while the record of a trim completed less than a day ago is being rewritten under its lock (lock, truncate, hold, write: the steps of lockedfile.Write) -- it must wait and then do nothing at all; every call of every history must leave the process with the descriptors it had (/proc/self/fd, collector off). A case is non-trivial when it contains a Trim call on a non-empty population (or is a due-test / a parsable string / a process round); distinct = distinct scenario. Clock injected through reflect on the real package: %v; epoch = real time.", nScn, nSweep, nParse, nStress, nKill, injectable)
 	res.Write(f.Out)
 }
 
